@@ -703,6 +703,46 @@ theorem Dot.bound_range {u : F} (hu0 : 0 ≤ u) {c bk y : F} (a b : Nat → F) (
   have := h.bound_le hu0 (K := K) (by simpa using hK) hk
   rwa [dotSum_range, dotAbs_range] at this
 
+/-! #### sparsity: skipped zero terms
+
+A sparse code never forms the products whose factor is a structural zero.  Such an evaluation is
+also an evaluation of the FULL inner product: insert the zero products anywhere with exact results
+(`d = 0` is admissible).  Hence hypotheses stated with the full lists `t < k` cover sparse kernels. -/
+
+theorem Dot.perm {u c bk y : F} {l l' : List (F × F)} {f : Finish} (h : Dot u c l bk f y)
+    (hp : l.Perm l') : Dot u c l' bk f y := by
+  obtain ⟨T, hc, hperm, w, hw, hf⟩ := h
+  exact ⟨T, hc, hperm.trans hp, w, hw, hf⟩
+
+/-- a product that is zero may be added to the list -/
+theorem Dot.insert_zero {u c bk y : F} (hu0 : 0 ≤ u) {l : List (F × F)} {f : Finish} {a b : F}
+    (hab : a * b = 0) (h : Dot u c l bk f y) : Dot u c ((a, b) :: l) bk f y := by
+  obtain ⟨T, hc, hperm, w, hw, hf⟩ := h
+  refine ⟨.fms T a b, hc, ?_, w, .fms hw ⟨0, by simpa using hu0, by rw [hab]; ring⟩, hf⟩
+  simp only [CTree.leaves]
+  exact List.perm_append_comm.trans (by simpa using hperm)
+
+/-- an evaluation over the nonzero products only is an evaluation of the full inner product -/
+theorem Dot.of_filter {u c bk y : F} (hu0 : 0 ≤ u) {f : Finish} (l : List (F × F))
+    (h : Dot u c (l.filter fun p => p.1 * p.2 ≠ 0) bk f y) : Dot u c l bk f y := by
+  suffices H : ∀ (l l0 : List (F × F)), Dot u c (l0 ++ l.filter fun p => p.1 * p.2 ≠ 0) bk f y →
+      Dot u c (l0 ++ l) bk f y by simpa using H l [] (by simpa using h)
+  intro l
+  induction l with
+  | nil => intro l0 h; simpa using h
+  | cons p l ih =>
+    intro l0 h
+    by_cases hp : p.1 * p.2 = 0
+    · have h' : Dot u c (l0 ++ l.filter fun p => p.1 * p.2 ≠ 0) bk f y := by
+        rwa [List.filter_cons_of_neg (p := fun p : F × F => decide (p.1 * p.2 ≠ 0))
+          (fun h => (of_decide_eq_true h) hp)] at h
+      have := (ih l0 h').insert_zero hu0 (a := p.1) (b := p.2) hp
+      exact this.perm (List.perm_middle.symm)
+    · have h' : Dot u c ((l0 ++ [p]) ++ l.filter fun p => p.1 * p.2 ≠ 0) bk f y := by
+        rw [List.filter_cons_of_pos (p := fun p : F × F => decide (p.1 * p.2 ≠ 0)) (decide_eq_true hp)] at h
+        rwa [List.append_assoc, List.singleton_append]
+      simpa using ih (l0 ++ [p]) h'
+
 /-! #### the trees are inhabited: left-to-right evaluation in any `FlModel` -/
 
 /-- the left-to-right tree `(((c - a₀b₀) - a₁b₁) - …)` with separately rounded products -/
